@@ -341,9 +341,9 @@ def random_call_def(rng, stage, lead_len, default_ok=True):
     d = {}
     for _ in range(rng.randint(0, 3)):
         pos = rng.randint(-2 * lead_len, 2 * lead_len)
+        # (crosses included: a cross is the EMPTY place list, which is falsy in Python)
         toks = [random_change(rng, stage) for _ in range(rng.randint(1, 4))]
-        toks = [t for t in toks if t] or [[1, min(stage, 4)] if stage >= 4 else [1]]
-        d[pos] = ".".join("".join(BELL_NAMES[p - 1] for p in t) for t in toks)
+        d[pos] = tokens_to_str(toks)
     return d
 
 
@@ -678,10 +678,8 @@ class MethodRowsSuite:
             for d, dd in ((bobs, bob_def), (singles, single_def)):
                 for _ in range(rng.randint(1, 2)):
                     pos = rng.randint(-2 * L, 2 * L)
-                    toks = []
-                    while not toks:
-                        toks = [t for t in (random_change(rng, stage) for _ in range(rng.randint(1, 4))) if t]
-                    d[pos] = toks
+                    # (crosses included: a cross is the EMPTY place list, which is falsy in Python)
+                    d[pos] = [random_change(rng, stage) for _ in range(rng.randint(1, 4))]
                 for pos, toks in d.items():
                     dd[pos] = tokens_to_str(toks)
         start_index = rng.randint(-3 * L, 3 * L) if rng.random() < 0.7 else 0
